@@ -151,6 +151,8 @@ type node struct {
 	crashArmed     bool
 	crashCountdown int
 	crashSites     [nSites]bool
+	forceJunk      bool // the next crash image of this node has junk behind the header of the first unsynced record
+	recrash        bool // arm another crash of this node soon after its next restart
 	crashedAt      int // site, valid when pendingCrash
 	pendingCrash   *crashImage
 	crashes        int
@@ -649,7 +651,11 @@ func (s *sim) handleCrashes() bool {
 			span := int(l.size - l.floor)
 			cut := l.size
 			if span > 0 {
-				switch s.tape.Weighted("crash.cut", 4, 3, 3, 2, 2) {
+				cutKind := s.tape.Weighted("crash.cut", 4, 3, 3, 2, 2)
+				if n.forceJunk {
+					cutKind = 4
+				}
+				switch cutKind {
 				case 0: // everything that reached the OS survives
 				case 1:
 					cut = l.floor
@@ -695,6 +701,26 @@ func (s *sim) handleCrashes() bool {
 		down := time.Duration(s.tape.Range("crash.down", 1, 400)) * 5 * time.Millisecond
 		db, dir := img.db, img.wal.dir
 		s.schedule(down, fmt.Sprintf("restart n%d", n.idx), func() { s.restart(n, db, dir) })
+		n.forceJunk = false
+		if n.recrash {
+			n.recrash = false
+			again := down + time.Duration(s.tape.Range("crash.again", 20, 600))*time.Millisecond
+			nth := 1 + s.tape.Choose("crash.again.nth", 12)
+			s.schedule(again, fmt.Sprintf("re-arm n%d", n.idx), func() {
+				if n.inc == nil || !n.inc.alive() || n.crashArmed {
+					return
+				}
+				var sites [nSites]bool
+				for i := range sites {
+					sites[i] = i != siteQuiescent
+				}
+				s.mu.Lock()
+				n.crashArmed, n.crashCountdown, n.crashSites = true, nth, sites
+				s.mu.Unlock()
+				s.rc.Fault("second_crash_armed_after_junk_image")
+				s.rc.Event("ARM-CRASH n%d again sites=any nth=%d", n.idx, nth)
+			})
+		}
 	}
 	return did
 }
